@@ -603,6 +603,11 @@ class FnSpec:
                 z3.ForAll([j], z3.Implies(z3.And(j >= 0, j < z3.Length(r.term)), z3.Exists([i], z3.And(rng, cond, r.term[j] == elt.term)))),
                 heavy=True,
             )
+            # completeness: every item that passes the filter appears in the result
+            eng.assume(
+                z3.ForAll([i], z3.Implies(z3.And(rng, cond), z3.Exists([j], z3.And(j >= 0, j < z3.Length(r.term), r.term[j] == elt.term)))),
+                heavy=True,
+            )
         return r
 
     # ---- operators ------------------------------------------------------------------------------
